@@ -8,6 +8,8 @@ WAVE3 = """
 Additional guidance for this round: write each change the way a real commit would look - a refactoring, a clean-up, a performance optimisation, or a Python-3 / NumPy-2 modernisation - and put it in SHARED code (helpers and base classes used by several public operations: dimarray/core/bases.py, axes.py, indexing.py, align.py, tools.py, transform.py, reshape.py, dataset.py, prettyprinting aside) rather than in the public function named after the operation. The property must break only as a SIDE EFFECT of the change, and only for some inputs; the diff should look reasonable to a reviewer. At least one of the two changes must sit in a helper that several public operations go through. Choose failing inputs that are as far as possible from what a developer would try first (but inside the scope given above)."""
 WAVE4 = """
 Additional guidance for this round: aim at state that lives OUTSIDE the array being operated on, or that outlives one call: module-level options (dimarray's rcParams / set_option / get_option and the code that temporarily switches them, e.g. the 'indexing.by' toggling done by .ix), class attributes, mutable default arguments, module-scope caches or scratch buffers, objects shared between an input and a result, values remembered on Axis / Axes / Dataset objects. Each change must make a LATER call (on the same or on another array) misbehave with respect to the property although the call that planted the state looked fine. Also acceptable: an error-handling path (an exception raised half-way) that leaves an option or an object in an altered state, after which ordinary calls break the property. Note: every shell command in this sandbox prints a long, harmless conda error about /root/.condarc before its real output - ignore it, do not try to fix it; redirecting a command's output to a file and reading the file keeps things readable."""
+WAVE7 = """
+Additional guidance for this round: earlier rounds already covered the obvious line of each operation, shared helpers, and module-level state. This round wants changes that hide in RARELY TAKEN BRANCHES and in COMBINATIONS: a fallback / `except` branch, a dtype-specific branch (bool, unsigned, object or str labels, float labels that are not integers, descending axes), a rarely used keyword or spelling of the operation (positional vs keyword axis, negative axis position, tuple of axes, dict form), rank 0 / 3 / 4 arrays, size-0 and size-1 axes, the second or third operand rather than the first, a Dataset whose variables have different dimension sets - or TWO COOPERATING SITES: a small change in one function that is harmless by itself plus a small change in another that is harmless by itself, wrong only together (deliver them as one patch). Each change must be wrong for a NARROW class of inputs only (say which), and right for everything a developer would try in the first five minutes."""
 WAVE2 = "" if wave == "1" else """
 Additional guidance for this round: stay away from the single most obvious line for this property. At least ONE of your two changes must need either a SEQUENCE of operations to manifest (state left behind by an earlier call, an object reused after a first call, aliasing between an input and a result, a cache) or the INTERACTION of two features/options (e.g. an option combined with an unusual axis type/dtype/shape, a rarely used keyword, a less common entry point/spelling of the same operation). The other may be a boundary/corner-case slip (empty or size-1 axis, negative position, duplicate or unsorted or mixed-type labels, NaN, object dtype, 0-d / 3-d arrays, descending axes)."""
 p = [json.loads(l) for l in open('/verif/properties.jsonl') if json.loads(l)['id'] == pid][0]
@@ -35,5 +37,5 @@ Procedure per change: edit the source; run tests; run the demo (must fail); `git
 Environment: sandbox without network. /venv/bin/python is Python 3.12 with NumPy 2.5 and pytest; netCDF4, pandas and matplotlib are NOT installed. {extra}
 Build DimArrays for demos like: `from dimarray import DimArray, Axis; a = DimArray(np.arange(6.).reshape(2,3), axes=[Axis(np.array([10,20]), 'x'), Axis(np.array(['a','b','c'], dtype=object), 'y')])`.
 
-{WAVE4 if wave == "4" else (WAVE2 if wave != "3" else WAVE3)}
+{WAVE7 if wave == "7" else WAVE4 if wave == "4" else (WAVE2 if wave != "3" else WAVE3)}
 Final report (plain text): for each change: file/function changed, the diff, why it violates the property, what is needed for it to manifest, pytest summary line before/after, demo output on clean and on changed code. If you could only produce one valid change, say so.""")
